@@ -11,7 +11,7 @@ LEVEL_TEXT = "Coq theorems on the model's fault containment + correspondence und
 LEVEL_NOTE = "Trusted: Coq kernel; hand-written model Model/Core.v + Model/Prog.v tied to /repo by per-run correspondence on generated logging programs (real control flow, real threads for hand-offs); Python harness. 'Never raises' is relative to the model's set of fallible primitives (destination call, field serializer, extractor, str()/repr() of user objects, JSON encoding). Destinations raising non-Exception BaseExceptions are outside the property's quantifier."
 
 FAMILIES = [
-    progs.program_family("programs", oracles.oracle_c07, 150, 3000, deep=dict(depth=6), **dict(p_reserved=0.15, p_globals=0.3, fault=0.7, registry_rate=0.9, p_fault_ser=0.3, p_hostile=0.15, file_dest=True, p_raw=0.05, sr=0.3, p_tb=0.1)),
+    progs.program_family("programs", oracles.oracle_c07, 150, 3000, deep=dict(depth=6), **dict(p_reserved=0.15, p_globals=0.3, fault=0.7, registry_rate=0.9, p_fault_ser=0.3, p_hostile=0.15, file_dest=True, p_raw=0.05, sr=0.3, p_tb=0.1, p_reenter=0.15)),
 ]
 
 
